@@ -271,11 +271,39 @@ func reachExcludes(fr *sym.Frame, a, b *sym.Event) bool {
 // evaluated with that helper kept as an opaque call whose range is the interval just computed.
 func (c *Ctx) checkAtMostFour(r *rend, abs *ssa.Function, pins map[string]*sym.Term, key, pos string) {
 	R := c.R
+	// the angle helper: a closure or named function of the module, reachable from AbsArcTo, taking four float64 and
+	// returning one (wherever a refactoring has put it)
 	var angle *ssa.Function
-	for _, af := range abs.AnonFuncs {
-		sig := af.Signature
-		if sig.Params().Len() == 4 && sig.Results().Len() == 1 && sig.Results().At(0).Type().String() == "float64" {
-			angle = af
+	{
+		seen := map[*ssa.Function]bool{}
+		work := []*ssa.Function{abs}
+		for len(work) > 0 {
+			f := work[len(work)-1]
+			work = work[:len(work)-1]
+			if f == nil || seen[f] || f.Blocks == nil || !c.P.FnInModule(f) {
+				continue
+			}
+			seen[f] = true
+			if f != abs {
+				sig := f.Signature
+				ok4 := sig.Params().Len() == 4 && sig.Results().Len() == 1 && sig.Results().At(0).Type().String() == "float64"
+				for i := 0; ok4 && i < 4; i++ {
+					ok4 = sig.Params().At(i).Type().String() == "float64"
+				}
+				if ok4 {
+					angle = f
+				}
+			}
+			work = append(work, f.AnonFuncs...)
+			for _, b := range f.Blocks {
+				for _, ins := range b.Instrs {
+					if ci, ok := ins.(ssa.CallInstruction); ok {
+						if sc := ci.Common().StaticCallee(); sc != nil {
+							work = append(work, sc)
+						}
+					}
+				}
+			}
 		}
 	}
 	ev := &fEval{ranges: map[string]fiv{}}
